@@ -241,6 +241,26 @@ def sum_total_on_empty(S: Sem) -> Tuple[bool, str]:
                                                                              for a in collect_atoms(nd.expr).values())]
     dom = cfg.dominators()
     ok = all(any(g in dom.get(p_, set()) for g in guards) for p_ in partial)
+    if ok:
+        # polarity: with the dimension empty the partial reduction is unreachable, with a non-empty one it is what is returned
+        from ..guards import Env, walk
+        size_terms = set()
+        for g in guards:
+            for a in collect_atoms(cfg.nodes[g].expr).values():
+                if isinstance(a, ast.Compare):
+                    for x in [a.left] + a.comparators:
+                        tx = ast.unparse(x)
+                        if '.shape[' in tx or '.size(' in tx or 'numel' in tx:
+                            size_terms.add(norm(x))
+        for t in size_terms:
+            r0 = walk(cfg, cfg.entry, Env(ints={t: 0}), unknown='both')
+            r2 = walk(cfg, cfg.entry, Env(ints={t: 2}), unknown='both')
+            if any(p_ in r0 for p_ in partial) or not all(p_ in r2 for p_ in partial):
+                return False, f"the test on `{t}` has the wrong polarity: the reduction without identity runs for an empty dimension, or the constant zero is returned for a non-empty one"
+            fills = [n for n, nd in cfg.nodes.items() if nd.kind == 'return' and nd.expr is not None and any(isinstance(c, ast.Call) and callee_last(c) in ('new_full', 'full', 'full_like', 'new_zeros', 'zeros') for c in ast.walk(nd.expr))]
+            if any(n in r2 for n in fills):
+                return False, f"the constant result is returned although `{t}` is not 0"
+
     return ok, ('the reduction without identity is reached only after a test of the dimension size' if ok else
                 f"`{callee_last([x for x in ast.walk(cfg.nodes[partial[0]].stmt) if isinstance(x, ast.Call) and callee_last(x) in PARTIAL_ON_EMPTY][0])}` over a dimension raises when the dimension is empty; the sum of no elements is the semiring zero")
 
